@@ -23,6 +23,11 @@ use ctx::Ctx;
 
 fn main() {
     let args: Vec<String> = std::env::args().collect();
+    if args.len() == 3 && args[1] == "parse-one" {
+        ctx::install_panic_hook();
+        fam_parse::parse_one(&args[2]);
+        return;
+    }
     if args.len() < 3 || args[1] != "run" {
         eprintln!("usage: orca-harness run <family> --seed S --n N --out DIR [--only CASE] [--tier T]");
         std::process::exit(2);
